@@ -259,7 +259,9 @@ def main(argv: List[str]) -> int:
                     tid += 1
                     # both option values (the grammar in use differs); the documents carry no properties
                     items[tid] = {'tid': tid, 'seed': seed, 'line': i, 'fault': fault, 'variant': variant, 'site': site,
-                                  'text': '\n'.join(new) + '\n', 'allow': tid % 2 == 0,
+                                  # (every third one between two block comments: a comment ends at ITS closing mark)
+                                  'text': ('/* head */\n' if tid % 3 == 0 else '') + '\n'.join(new) + '\n' + ('/* tail */\n' if tid % 3 == 0 else ''),
+                                  'allow': tid % 2 == 0,
                                   'propsyntax': fault == 'unknown_setting' and "zzz: 'v'" in new[i]}
     recs: List[Dict[str, Any]] = []
     for part in core.pmap(_exec_chunk, core.chunked(list(items.values()), core.NCPU * 4)):
